@@ -448,6 +448,156 @@ META = {
         detected_by={"C20": "poles_equal_reference (all six reference strings)"},
         strengthening=None,
     ),
+    # ---- round 4 (error paths, entry points, large counts, conventions) -----------------------------------------
+    "C01d": dict(
+        summary="update_all wraps each update in try/except and 'rolls back' on failure with an off-by-one slice (minerals[:i+1]): the failing "
+                "mineral, which appended nothing, loses its latest earlier snapshot",
+        needs="pydrex.update_all, one rejected call in the history (unsupported regime from get_regime, phase omitted from the assemblage, raising callback), "
+              "and inspection of the failing mineral's stored history afterwards",
+        detected_before_strengthening=False,
+        detected_by={"C01": "bulk_history_append_only (two-phase histories through update_all with one rejected segment)",
+                     "C07": "history_untouched_after_failure/bulk"},
+        strengthening="new C01 case kind bulk_rejection and new C07 case kind bulk_failure: every mineral's history is digested before and after every "
+                      "update_all call, accepted or rejected",
+    ),
+    "C02d": dict(
+        summary="grain-boundary-migration law factored into a jitted helper; the frictional_yielding call site omits volume_fraction (default 1.0)",
+        needs="regime frictional_yielding with phase fraction < 1, M* > 0 and unequal strain energies",
+        detected_before_strengthening=True,
+        detected_by={"C02": "volume_rate_equals_reference (reference model, regime x phase fraction varied jointly)"},
+        strengthening=None,
+    ),
+    "C03d": dict(
+        summary="mean strain energy accumulated as a running weighted mean inside the grain loop: fractions[i]/volume is 0/0 while the accumulated volume is zero",
+        needs="fractions[0] == 0.0 exactly (leading zero-volume grain, one-hot vector whose dominant grain is not grain 0)",
+        detected_before_strengthening=True,
+        detected_by={"C03": "returns_without_raising (volume classes with exact zeros in every position)"},
+        strengthening=None,
+    ),
+    "C04d": dict(
+        summary="the two no-slip exits of _get_rotation_and_strain return a passive rigid rotation computed as W^T.A instead of A.W^T (row/column mix-up)",
+        needs="a grain with exactly zero slip invariants (axis-aligned grain in an axis-aligned flow) and vorticity about another axis",
+        detected_before_strengthening=True,
+        detected_by={"C04": "rate:twofold / rate:rotation on axis-aligned textures in axis-aligned flows"},
+        strengthening=None,
+    ),
+    "C05d": dict(
+        summary="eval_rhs no longer divides the strain-rate tensor handed to derivatives by strain_rate_max; enstatite's absolute 1e-15 activity threshold "
+                "then depends on the dimensional rate",
+        needs="enstatite, a dislocation regime, k ~ 1 compared with geological k <= 1e-12",
+        detected_before_strengthening=True,
+        detected_by={"C05": "rescale:textures_related (k down to 1e-16, all six phase/fabric combinations)"},
+        strengthening=None,
+    ),
+    "C06d": dict(
+        summary="a mineral whose phase is missing from phase_assemblage is now 'tolerated' instead of crashing LSODA, but its branch advances F with F.L instead of L.F",
+        needs="mineral outside the assemblage whose return value is used (alone or last in update_all) and F, L that do not commute",
+        detected_before_strengthening=False,
+        detected_by={"C06": "omitted_phase_F_equals_reference"},
+        strengthening="C06 drives a mineral whose phase is omitted from the assemblage (alone and last in update_all): refused (counted) or F equals the reference",
+    ),
+    "C07d": dict(
+        summary="update_all skips, with a warning, any mineral whose phase is not in phase_assemblage: invalid phase ordinals are silently dropped and numbers returned",
+        needs="pydrex.update_all with an invalid-phase mineral plus at least one valid mineral",
+        detected_before_strengthening=False,
+        detected_by={"C07": "bulk_update_rejected/phase"},
+        strengthening="new C07 case kind bulk_failure: rejected mineral (phase ordinal / regime / fabric / get_regime) at every position of an update_all list",
+    ),
+    "C08d": dict(
+        summary="frictional_yielding branch of derivatives: 'retained_fraction' replaced volume_fraction in the product, so the phase's own fraction is unused there",
+        needs="regime frictional_yielding in a genuine multiphase aggregate with M* > 0",
+        detected_before_strengthening=True,
+        detected_by={"C08": "a:* (multiphase vs single-phase with phi*M*, regimes 4 and 6)", "C02": "volume_rate_equals_reference", "C03": "linear_in_volume_fraction"},
+        strengthening=None,
+    ),
+    "C09d": dict(
+        summary="perform_step hands apply_gbs the threshold chi * (phase volume fraction)",
+        needs="two-phase parameters (phase fraction < 1), chi > 0 and a grain below chi/n",
+        detected_before_strengthening=False,
+        detected_by={"C09": "hist:sliding_uses_mineral_threshold_and_grain_count; hist:stored_floor on two-phase histories"},
+        strengthening="half of the C09 histories (and a quarter of all generated histories, drive.random_history_case) are one phase of a two-phase "
+                      "assemblage; new sub-oracle compares the threshold and grain count handed to apply_gbs with the mineral's own",
+    ),
+    "C10d": dict(
+        summary="voigt_averages selects the stiffness tensor with `mineral.phase is MineralPhase.olivine`: minerals restored from NPZ (phase = np.uint8) or "
+                "built with a plain int fall into the enstatite branch",
+        needs="olivine mineral obtained through Mineral.from_file / Mineral.load or constructed with phase=0",
+        detected_before_strengthening=False,
+        detected_by={"C10": "equals_reference_average on minerals=from_file/load/int_phase/np_phase"},
+        strengthening="C10 minerals now come from five origins: built, from_file, load, plain-int phase, NumPy-int phase",
+    ),
+    "C11d": dict(
+        summary="polar_decompose forces a proper rotation by flipping the last singular pair when det(U.Vh) < 0: the stretch becomes indefinite",
+        needs="full-rank orientation-reversing input (det M < 0)",
+        detected_before_strengthening=True,
+        detected_by={"C11": "polar_left / polar_right (psd clause; reflections and negative-definite inputs in the matrix catalogue)"},
+        strengthening=None,
+    ),
+    "C12d": dict(
+        summary="elasticity_components Gram-Schmidt-orthogonalises the averaged SCCS axes without re-normalising: hexagonal axis shorter than 1",
+        needs="non-orthorhombic tensor (Voigt average of a texture) whose best hexagonal axis is not SCCS axis 2",
+        detected_before_strengthening=True,
+        detected_by={"C12": "hexagonal_axis_unit (texture averages incl. enstatite)"},
+        strengthening=None,
+    ),
+    "C13d": dict(
+        summary="_scatter_matrix divides by N - 1 ('covariance-style'): inf/NaN for a single grain, all three diagnostics raise",
+        needs="an aggregate of exactly one grain",
+        detected_before_strengthening=False,
+        detected_by={"C13": "repository_call_completes (raises/ValueError@symmetry_pgr)"},
+        strengthening="the one-grain cases were generated already but the exception crashed the shard (inconclusive, exit 2); the harness now records an "
+                      "exception escaping from repository code on a generated valid input as a failing oracle evaluation keyed raises/<Type>@<function>",
+    ),
+    "C14d": dict(
+        summary="misorientation_hist processes pairs in blocks of 2**20 and returns the unweighted mean of per-block normalised histograms",
+        needs="at least 1449 grains (> 2**20 pairs); large effect for non-exchangeable listings (cluster listed last)",
+        detected_before_strengthening=False,
+        detected_by={"C14": "permutation_invariant on n=1449 with a 32-grain cluster listed last"},
+        strengthening="C14 relation cases with 1449-2000 grains (quick: one triclinic case; thorough: triclinic/orthorhombic/monoclinic)",
+    ),
+    "C15d": dict(
+        summary="uniform variates drawn as float32: exactly 0.0 once in 2**24 draws, which selects the smallest (zero-volume) grain",
+        needs="a zero-volume grain and ~1e7 draws",
+        detected_before_strengthening=False,
+        detected_by={"C15": "post:zero_volume_never_drawn on zero_hunt cases"},
+        strengthening="new C15 case kind zero_hunt: 2e8 draws per quick run (6.4e9 thorough) from stacks with empty grains",
+    ),
+    "C16d": dict(
+        summary="header writer emits non-finite float fills as .nan/.inf and loses the sign of -inf",
+        needs="float fill -inf and a cell equal to -inf",
+        detected_before_strengthening=True,
+        detected_by={"C16": "roundtrip_values (fills drawn from special floats incl. -inf)"},
+        strengthening=None,
+    ),
+    "C17d": dict(
+        summary="Mineral.save preallocates and fills snapshot by snapshot (slice assignment broadcasts) instead of np.stack: a later snapshot of size 1 is replicated and written",
+        needs=">= 2 snapshots, n_grains > 1, first snapshot consistent, a later one of shape (1,), 0-d, (1,3,3) or (3,3)",
+        detected_before_strengthening=False,
+        detected_by={"C17": "rejected_without_writing (reject/size_mismatch/<array>/<shape>/accepted)"},
+        strengthening="C17 corrupt states now cover first/middle/last snapshot x fractions/orientations/both x {n+1, n-1, 1, 0-d, one 3x3, empty}",
+    ),
+    "C18d": dict(
+        summary="regular_steps branch of get_pathline starts the resampled timestamps at path.t_events[0][-1]: IndexError when no terminal event fired",
+        needs="regular_steps given and a flow so slow that neither strain limit nor box is reached within the 100 Myr horizon",
+        detected_before_strengthening=False,
+        detected_by={"C18": "pathline_returned (pathline_raises/IndexError) on slow flows"},
+        strengthening="one pathline case in seven uses amplitudes 1e-20..3e-17 (class pathline/spans_whole_horizon)",
+    ),
+    "C19d": dict(
+        summary="_parse_phase merges the enum and int branches into `if phase in tuple(MineralPhase): return phase`: integer codes stay plain ints "
+                "(TypeError later with default outputs), 1.0 accepted",
+        needs="phase_assemblage given by integer code in the TOML file",
+        detected_before_strengthening=False,
+        detected_by={"C19": "config_parses (config_raises/TypeError); config_invariants"},
+        strengthening="generated configurations give phases by name, by integer code or mixed; new fault configs phase_code_float / negative / nested",
+    ),
+    "C20d": dict(
+        summary="to_spherical colatitude computed as arccos(z/r) again (the defect repaired by 9c744e2)",
+        needs="points close to but not on the z axis",
+        detected_before_strengthening=True,
+        detected_by={"C20": "spherical_roundtrip (near-polar points)"},
+        strengthening=None,
+    ),
 }
 
 
